@@ -309,6 +309,13 @@ class ModelClient:
         fit_turnout_outlier_model = model_parameters.get("fit_turnout_outlier_model", True)
         outlier_z_threshold = model_parameters.get("outlier_z_threshold", 2.0)
 
+        # unexpected units need every key that one of the requested tables is grouped by, e.g. the district in a
+        # district race even when only the county table is requested (the county table is grouped by district too)
+        aggregate_keys = sorted(
+            {key for aggregate in aggregates if aggregate != "unit" for key in self.get_aggregate_list(office, aggregate)},
+            key=AGGREGATE_ORDER.index,
+        )
+
         (reporting_units, nonreporting_units, unexpected_units) = data.get_units(
             percent_reporting_threshold,
             turnout_factor_lower,
@@ -318,7 +325,7 @@ class ModelClient:
             fit_margin_outlier_model,
             fit_turnout_outlier_model,
             outlier_z_threshold,
-            aggregates,
+            aggregate_keys,
         )
 
         if model_parameters.get("extrapolation", False):
